@@ -207,6 +207,10 @@ def job_source(jc):
             U = Affine2D(1, 0, 0, 1, r("u4", -500, 500), r("u5", -500, 500))
             for i in range(4):
                 core.assume(r(f"u{i}") == U[i])
+        elif user == "mirror":  # orientation-reversing user transforms are as legitimate as any other
+            U = Affine2D(-1, 0, 0, 1, r("u4", -500, 1500), r("u5", -500, 500))
+            for i in range(4):
+                core.assume(r(f"u{i}") == U[i])
         else:
             U = Affine2D(r("u0", Fraction(1, 4), 2), 0, 0, r("u3", Fraction(1, 4), 2), r("u4", -500, 500), r("u5", -500, 500))
             core.assume(r("u1") == 0)
@@ -290,4 +294,6 @@ def jobs(tier):
     for name in SOURCES:
         for user in (("identity", "translate") if tier == "quick" else ("identity", "translate", "scale")):
             js.append(Job(f"source[{name}|user {user}]", job_source, source=name, user=user))
+    js.append(Job("source[solids+opacity|user mirror]", job_source, source="solids+opacity", user="mirror"))
+    js.append(Job("source[userspace gradients, non-square viewBox|user mirror]", job_source, source="userspace gradients, non-square viewBox", user="mirror"))
     return js
